@@ -687,7 +687,7 @@ def generate(tier, rng, mult):
     off = rng.randint(0, 5)
     # (a) determinism, every family (incl. the shared-input variants and the packaged loops)
     for s in seeds:
-        for f in F.SHARED + fams + F.PACKAGED:
+        for f in F.SHARED + fams + F.HEAVY + F.PACKAGED:
             yield {"k": "det", "family": f, "seed": s, "ngen": F.ngen_for(f, ngen), "hs": hs}
     # address / hash-order sensitivity shows only in some runs: the user-typed GP family gets more run seeds
     for f in fams:
@@ -703,7 +703,7 @@ def generate(tier, rng, mult):
         for f in F.SHARED + fams + F.PACKAGED:
             ng = F.ngen_for(f, ngen) if not f.startswith("pk_") else ngen
             yield {"k": "rerun", "family": f, "seed": s, "gs": [0, 1, 2] if thorough else [0, 1], "ngen": ng}
-        for f in fams:
+        for f in fams + F.HEAVY:
             yield {"k": "inproc", "family": f, "seed": s, "ngen": F.ngen_for(f, ngen), "off": off, "hs": hs}
     for name in O.ORDER:
         for _ in range((5 if thorough else 1) * min(mult, 5)):
@@ -711,7 +711,7 @@ def generate(tier, rng, mult):
     yield {"k": "opcover"}
     # (b) EVERY family, every crash point
     for s in seeds:
-        for f in fams + (["cma_es_shared"] if thorough else []):
+        for f in fams + F.HEAVY + (["cma_es_shared"] if thorough else []):
             ng = F.ngen_for(f, ngen)
             for g in range(0, ng + 1):
                 protos = PROTOCOLS if thorough else sorted(set([(off + g) % 6, (off + g + 3) % 6]))
